@@ -67,9 +67,10 @@ class C02(Prop):
     rule = ("all 33 kinds x addresses x type/version bytes with arbitrary message payloads (envelope); every parameterised request with "
             "boundary values 0,1,254,255 per byte field, 2-byte thermostat values 0,255,256,65535, all 40 schedule kinds with random 7x48 "
             "bitmaps; bytes taken from Frame.bytes and from a fake transport behind the real FrameWriter; a quarter of the cases again on a frame object "
-            "that was first serialised with other header fields / payload / data and then re-assigned (reused:*).  Non-trivial = bytes were produced; "
+            "that was first serialised with other header fields / payload / data and then re-assigned (reused:*); device-available and "
+            "program-version responses built by the library from data objects, compared with the Coq encoders.  Non-trivial = bytes were produced; "
             "distinct by case content.")
-    assumptions = ["the responses the library can build from data (program version, device available) are covered with the C03 structure check"]
+    assumptions = ["chunked / partial transmission by the OS below asyncio.StreamWriter is outside the model"]
 
     def generate(self, rng, tier):
         t = G.tables()
@@ -110,11 +111,32 @@ class C02(Prop):
             cases.append({"kind": "request:%d" % tag, "req": req, "rcpt": rng.choice([0x45, 0, 0x51, rng.randrange(256)]),
                           "sender": rng.choice([0x56, rng.randrange(256)]), "etype": rng.choice([48, rng.randrange(256)]),
                           "ever": rng.choice([5, rng.randrange(256)])})
+        # the two responses the library builds from data: device available (every network configuration) and program version;
+        # their payload is the Coq encoder's, the frame is built by the library from the data objects
+        for _ in range(60 if tier == "quick" else 1500):
+            net = [[rng.randrange(256) for _ in range(4)] for _ in range(3)] + [rng.random() < 0.5] + \
+                  [[rng.choice([0, rng.randrange(256)]) for _ in range(4)] for _ in range(3)] + \
+                  [rng.random() < 0.5, rng.randrange(5), rng.randrange(256), rng.random() < 0.5,
+                   list(rng.choice(["", "home", "zażółć", "x" * 32]).encode())]
+            m = model.call("encode_netinfo", net)
+            if m:
+                cases.append({"kind": "response:device-available", "from_net": net,
+                              "f": [0xB0, rng.choice([0x45, 0, 0x51]), rng.choice([0x56, 0x45]), rng.choice([48, rng.randrange(256)]),
+                                    rng.choice([5, rng.randrange(256)]), list(m[0])]})
+            ver = [[rng.randrange(256) for _ in range(2)], rng.randrange(256), [rng.randrange(256) for _ in range(2)],
+                   [rng.randrange(256) for _ in range(3)], rng.choice([0, 1, 255, 256, 65535, rng.randrange(65536)]),
+                   rng.randrange(65536), rng.randrange(65536)]
+            sender = rng.choice([0x56, 0x45, rng.randrange(256)])
+            m = model.call("encode_version", [ver, sender])
+            if m:
+                cases.append({"kind": "response:program-version", "from_ver": ver,
+                              "f": [0xC0, rng.choice([0x45, 0]), sender, rng.choice([48, rng.randrange(256)]), rng.choice([5, rng.randrange(256)]),
+                                    list(m[0])]})
         # one frame object serialised, then given other header fields / payload / data, and serialised again:
         # the second serialisation must be that of the fields it has then
         reused = []
         for c in cases:
-            if rng.random() >= 0.25:
+            if rng.random() >= 0.25 or c["kind"].startswith("response:"):
                 continue
             d = dict(c)
             hdr = {"rcpt": rng.choice([0x45, 0, 0x51, rng.randrange(256)]), "sender": rng.choice([0x56, 0x45, rng.randrange(256)]),
@@ -167,6 +189,23 @@ class C02(Prop):
                     if "req" in pre:
                         fresh = build_request(case["req"], case["rcpt"], case["sender"], case["etype"], case["ever"])
                         frame.data = fresh._data
+            elif "from_net" in case:
+                from harness.c09 import net_to_params
+                from pyplumio.frames.responses import DeviceAvailableResponse
+                from pyplumio.structures.network_info import NetworkInfo
+                f = case["f"]
+                eth, wlan = net_to_params(case["from_net"])
+                ni = NetworkInfo(eth=eth, wlan=wlan, server_status=bool(case["from_net"][7]))
+                frame = DeviceAvailableResponse(recipient=FI.addr(f[1]), sender=FI.addr(f[2]), econet_type=f[3], econet_version=f[4],
+                                                data={"network": ni})
+            elif "from_ver" in case:
+                from pyplumio.frames.responses import ProgramVersionResponse
+                from pyplumio.structures.program_version import VersionInfo
+                f, v = case["f"], case["from_ver"]
+                vi = VersionInfo(software="%d.%d.%d" % (v[4], v[5], v[6]), struct_tag=bytes(v[0]), struct_version=v[1],
+                                 device_id=bytes(v[2]), processor_signature=bytes(v[3]))
+                frame = ProgramVersionResponse(recipient=FI.addr(f[1]), sender=FI.addr(f[2]), econet_type=f[3], econet_version=f[4],
+                                               data={"version": vi})
             elif case["kind"] == "envelope":
                 frame = FI.make_frame(*case["f"])
             else:
@@ -242,7 +281,7 @@ class C02(Prop):
         suspends) must appear on the wire as whole frames, one after the other, in some order."""
         fails = []
         self._concurrent = 0
-        pool = [c for c in self.generate(rng, "quick") if c["kind"].startswith("request:") or c["kind"] == "envelope"]
+        pool = [c for c in self.generate(rng, "quick") if (c["kind"].startswith("request:") or c["kind"] == "envelope") and "pre" not in c]
         long_ones = [c for c in pool if c["kind"] == "request:7" or (c["kind"] == "envelope" and len(c["f"][5]) > 40)]
         for _ in range(40 if tier == "quick" else 600):
             chosen = [rng.choice(long_ones)] + [rng.choice(pool) for _ in range(rng.choice([1, 2]))]
